@@ -13,7 +13,7 @@ CHECKS = {
             'Rocq/Coq proof by induction over the receive sequence + real-time relational trace validation',
             "DESIGN.md section 5.5 and 6 C01"),
     "C02": (True,
-            'Coq proofs: every batch without an urgent event is delivered no earlier than first-receive + throttle (monotone receive times); a window timeout delivers exactly at first + throttle on an ideal clock whatever rejected events arrive meanwhile (they never touch the set or its window); an urgent event flushes at once unfiltered; zero throttle gives one batch per event. Lower bound checked exactly on real-time observations, upper bound with slack.',
+            'Coq proofs: every batch without an urgent event is delivered no earlier than first-receive + throttle (monotone receive times); a window timeout delivers exactly at first + throttle on an ideal clock whatever rejected events arrive meanwhile (they never touch the set or its window); an urgent event flushes at once unfiltered; zero throttle gives one batch per event; for a throttle changed at run time (Worker/ThrottleRt.v: events and configuration changes as inputs, value read at the previous loop turn vs value configured now) the machine equals the constant one when nothing changes, conserves events and delivers no earlier than first + a configured value, for any change history. Lower bound checked exactly on real-time observations incl. run-time changes, upper bound with slack.',
             'Trusted: Coq kernel, harness (real-time taps through a scripted Filterer and action handler). tokio timeout, std Instant, async-priority-channel are modelled; the model is evaluated on the observed receive instants (cases within 18 ms of a window edge are judged by the monitors only). No axioms.',
             'Rocq/Coq proof over the throttle machine + exact lower-bound / slack upper-bound monitors on real-time runs',
             "DESIGN.md section 5.5 and 6 C02"),
@@ -39,7 +39,7 @@ CHECKS = {
             'Rocq/Coq invariant proof by induction over labels + membership correspondence on a paused-clock runtime',
             "DESIGN.md section 5.4 and 6 C04"),
     "C05": (True,
-            'Coq proofs on a run-level model of the CLI action logic: start-up run unless --postpone; a change while idle starts the command in every mode; do-nothing changes nothing; signal mode delivers exactly one signal, the configured one (--signal, else --stop-signal, else TERM) and nothing else; restart stops with the stop signal and starts one fresh run; queue: any number of changes during a run give exactly one further run when it ends; freshness invariants for restart (always) and queue (a pending change implies running and queued) over every event sequence; --signal / -r shorthands; non-overlap from the C04 theorem. PARTIAL: handling of one batch is atomic in the model (queue-flag reset window not modelled). The real CLI handler is run in-process with real child processes on 64 generated scenarios per run.',
+            'Coq proofs on a run-level model of the CLI action logic INSTANTIATED WITH THE TABLE OF JOB API CALLS TRANSLATED FROM config.rs (per on-busy arm; signal expression; mode shorthands): start-up run unless --postpone; a change while idle starts the command in every mode; do-nothing changes nothing; signal mode delivers exactly one signal, the configured one (--signal, else --stop-signal, else TERM) and nothing else; restart stops with the stop signal and starts one fresh run; queue: any number of changes during a run give exactly one further run when it ends; freshness invariants for restart (always) and queue (a pending change implies running and queued) over every event sequence; --signal / -r shorthands; non-overlap from the C04 theorem. The decision is taken on the state the in-job query saw; a command that ends before the queued calls are processed is an explicit event (restart still yields a fresh run). PARTIAL: the queue-flag reset window is not modelled. The real CLI handler is run in-process with real child processes on 64 generated + 6 corpus scenarios per run; a racy 40-trial family joins the deep search.',
             'Trusted: Coq kernel, harness (h_cli onbusy: clap parse, make_config, Watchexec::main, real job supervisor, helper child logging start/signals/exit). Real time: change batches and exits closer than 30 ms are not ordered by the observation and skipped. No axioms.',
             'Rocq/Coq proof over a run-level model + in-process differential runs of the real CLI handler with real children',
             "DESIGN.md section 6 C05"),
@@ -64,7 +64,7 @@ CHECKS = {
             'Rocq/Coq refinement to a reference machine + differential comparison against two references',
             "DESIGN.md section 5.4 and 6 C09"),
     "C10": (True,
-            'Coq proofs: accepted = executed ++ queued, per priority and in order, for every label sequence (any number of senders), so controls run in send order, at most once, and a taken control implies all earlier ones of that priority; at every decision of the repaired task urgent beats high beats normal and normal waits for the grace timer; API priority table translated from job.rs. Refutation witness for the pinned parked select!. Burst-heavy correspondence.',
+            'Coq proofs: accepted = executed ++ queued, per priority and in order, for every label sequence (any number of senders), so controls run in send order, at most once, and a taken control implies all earlier ones of that priority; at every decision of the repaired task urgent beats high beats normal and normal waits for the grace timer; API priority table translated from job.rs. Refutation witness for the pinned parked select!. Burst-heavy correspondence. Any control at any priority reaches the real task through the hook Job::verif_send: raw-priority controls are part of all job histories and a lanes family (bursts of run() controls in the three lanes while the task is parked, busy or holds an armed timer) is checked against the lane order.',
             'Trusted: Coq kernel, translator (API table), harness (SimChild through the public spawn hook, paused tokio clock). tokio select!/mpsc/timers, process-wrap and the OS are modelled: select! as a free choice among ready branches, kill = start_kill + wait. The hand-written task model (Job/JobModel.v) is tied to task.rs / priority.rs / state.rs by the membership correspondence. No axioms.',
             'Rocq/Coq invariant proof (queue bookkeeping) + decision lemma + membership correspondence',
             "DESIGN.md section 5.4 and 6 C10"),
@@ -87,7 +87,7 @@ CHECKS = {
             "Rocq/Coq proof (all flag sets x arbitrary source lists) + exhaustive differential correspondence over flags x explicit options",
             "DESIGN.md section 6 C12"),
     "C13": (True,
-            "Coq proofs on the fs-worker model: every turn of the repaired loop keeps 'own record = registered with the live watcher' for any three configuration reads (changes in the middle of a turn) and any failures; one turn over a stable configuration registers exactly the configured (path, mode) entries that were registered or whose attempt succeeds, with the configured kind, and an empty set releases the watcher; a blocked worker has started a turn after the latest change (change counter) for every interleaving; one error per failing attempt. Refutation witnesses for both repaired defects. PARTIAL: real notify backends are replaced by a recording watcher through the cfg hook. Changes are issued idle, from inside the n-th watch/unwatch call, and in rapid succession.",
+            "Coq proofs on the fs-worker model: every turn of the repaired loop keeps 'own record = registered with the live watcher' for any three configuration reads (changes in the middle of a turn) and any failures; one turn over a stable configuration registers exactly the configured (path, mode) entries that were registered or whose attempt succeeds, with the configured kind, and an empty set releases the watcher; a blocked worker has started a turn after the latest change (change counter) for every interleaving; one error per failing attempt. Refutation witnesses for both repaired defects. PARTIAL: real notify backends are replaced by a recording watcher through the cfg hook. Changes are issued idle, from inside the n-th watch/unwatch call, and in rapid succession. Lost wake-ups: the order of the synchronisation operations of ConfigWatched::next and Config::signal_change is translated from config.rs and, for every interleaving of exactly that program with any number of concurrent signal_change calls, a worker asleep in next() with no notification in flight has seen the latest change (Fs/ConfigRace.v; the load-before-register order is refuted by a witness).",
             'Trusted: Coq kernel, harness (recording notify::Watcher through the watchexec_verif factory hook). tokio Notify / RwLock semantics and the notify contract are modelled. No axioms.',
             'Rocq/Coq invariant + convergence proof over the worker turn + re-entrant differential harness',
             "DESIGN.md section 6 C13"),
